@@ -28,7 +28,7 @@ except Exception:   # pragma: no cover
     pass
 
 ID = "C14"
-RUNS = {"quick": 40_000, "thorough": 2_000_000}
+RUNS = {"quick": 28_000, "thorough": 2_000_000}
 MAX_BATCH = 2000
 SIM_TIME_UNIT = "virtual seconds"
 RULE = (
@@ -112,6 +112,9 @@ def gen(tape):
     events = []
     for _ in range(tape.weighted("faults", [(9 - 2 * hot, 0), (hot, 1), (1 if hot > 2 else 0, 2)], "n-events")):
         events.append([tape.choice("faults", GRID + (7,), "event-time"), tape.choice("faults", ("stop", "sigint"), "event-kind")])
+    if tape.chance("faults", 1, 6, "stall"):
+        # the process stalls: the clock jumps and several timed calls are due in one iteration
+        events.append([tape.choice("faults", (0, 1, 2, 3), "stall-at"), "stall:%d" % tape.choice("faults", (1, 3, 8, 20), "stall-by")])
     return stages, cleanups, cfg, events
 
 
@@ -121,7 +124,10 @@ def model(stages, cleanups, cfg, events):
     T = cfg["timeout"]
     m = {"starts": [], "raised": [], "tie": False, "halt": None, "leftover": False, "logged": 0, "unhandled": 0,
          "async": False}
-    ext = sorted(at for at, kind in events)
+    ext = sorted(at for at, kind in events if not kind.startswith("stall"))
+    m["stalled"] = any(kind.startswith("stall") for at, kind in events)
+    m["selectable_left"] = False
+    m["never"] = False
     stack = []
     t = 0
     pending_calls = []   # due times of calls left by side effects
@@ -137,6 +143,7 @@ def model(stages, cleanups, cfg, events):
                 pending_calls.append(t + s[1])
             elif s[0] == "selectable":
                 m["leftover"] = True
+                m["selectable_left"] = True
             elif s[0] == "log_err":
                 if s[1]:
                     m["logged"] = 0      # flush_logged_errors() clears everything logged so far
@@ -150,6 +157,7 @@ def model(stages, cleanups, cfg, events):
         if kind == "never":
             t = INF
             m["async"] = True
+            m["never"] = True
             return "never"
         if kind.startswith("later"):
             m["async"] = True
@@ -305,6 +313,23 @@ def run_one(tape, opts):
             raised = e
         except BaseException as e:   # noqa
             raised = e
+        # a trivial clean test right afterwards, same reactor, same process: whatever the first one did,
+        # this one completed cleanly and must be a success
+        follow = None
+        if raised is None:
+            sim.drop_events()
+            w2 = World()
+            t2 = TExt(w2, "followup")
+
+            class FollowUp(testtools.TestCase):
+                def test_ok(self):
+                    pass
+
+            try:
+                FollowUp("test_ok", runTest=factory).run(t2)
+                follow = [e.method for e in w2.events if e.method in OUTCOMES]
+            except BaseException as e:   # noqa
+                follow = ["raised:" + type(e).__name__]
         obs_after = (sorted(map(id, globalLogPublisher._observers)), sorted(map(id, tw_log.theLogPublisher.observers)))
         pending = reactor.getDelayedCalls()
         left = [s for s in reactor.getReaders() + reactor.getWriters() if s not in reactor._internalReaders]
@@ -354,8 +379,20 @@ def run_one(tape, opts):
                     f"log observers before {obs_before} after {obs_after}")
     if sig_after[signal.SIGINT] != signal.default_int_handler:
         out.violate("signal-not-restored", "SIGINT", f"{sig_after[signal.SIGINT]!r}")
+    if follow is not None and follow != ["addSuccess"]:
+        out.violate("leak-into-next-test", "followup:" + ",".join(follow)[:40],
+                    f"a trivial passing test run right after this one on the same reactor was reported as {follow}; first test: stages {stages} cfg {cfg} events {events} outcome {kind}")
     fired = [k for _, k in sim.fired]
-    if kind is not None and not m["tie"] and raised is None:
+    if kind is not None and m["stalled"] and raised is None:
+        # a stall shifts every later timer, so the timeline model does not apply; but stalls only delay:
+        # whatever makes the run unsuccessful without them still does
+        t_nostall = m["t_end_chain"]
+        must_fail = bool(m["raised"] or m["logged"] or m["unhandled"] or m["selectable_left"] or m["never"] or t_nostall > cfg["timeout"])
+        if must_fail and kind == "success":
+            out.violate("success-iff", "stalled:reported=success;must-fail",
+                        f"model {m}; stages {stages}; cfg {cfg}; events {events}; executed {xlog}; fired {sim.fired}")
+        out.probe("stalled-run")
+    elif kind is not None and not m["tie"] and raised is None:
         clean = (not m["raised"] and m["halt"] is None and not m["leftover"] and not m["logged"] and not m["unhandled"])
         if (kind == "success") != clean:
             out.violate("success-iff", f"reported={kind};model-clean={clean}",
@@ -367,10 +404,9 @@ def run_one(tape, opts):
                 out.violate("interrupt-not-error", f"reported={kind}", f"model {m}; events {events}; fired {sim.fired}; executed {xlog}")
             if not stops:
                 out.violate("interrupt-no-stop", "stop-not-called", f"model {m}; events {events}; fired {sim.fired}")
-        if not clean and kind not in ("success",):
-            failing = [x for x in m["raised"] if x in ("fail", "error")] or m["halt"] or m["leftover"] or m["logged"] or m["unhandled"]
-            if failing and kind not in ("error", "failure"):
-                out.violate("success-iff", f"reported={kind};failing-present", f"model {m}; executed {xlog}")
+        # (Which non-success outcome is reported when several things went wrong is C03's business --
+        # the lifecycle checks run their programs under this runner too -- C14 only fixes success,
+        # timeout and interrupt.)
         # stage order and timing
         if xlog != m["starts"]:
             out.violate("stage-order", _diff(xlog, m["starts"]), f"executed {xlog} expected {m['starts']}; model {m}; stages {stages}; cfg {cfg}; events {events}")
